@@ -200,18 +200,38 @@ Definition tm_payload_of (tbl : N -> N) (c : tm_call) : list N :=
 Lemma tm_hdr_of_len : forall c, length (tm_hdr_of c) = 40%nat.
 Proof. intros []; reflexivity. Qed.
 
+(* what acceptance itself guarantees (the range tests of the repaired producers) *)
+Definition tm_accepted_facts (tbl : N -> N) (c : tm_call) : Prop :=
+  match c with
+  | TmUser _ stype _ _ => stype < 256
+  | TmAnn _ _ _ atype _ stype _ _ => stype < 256 /\ atype < 256
+  | TmFsr sig _ _ count => (count * tbl sig + 7) / 8 <= 4294967255
+  | _ => True
+  end.
+Lemma tm_accept_facts : forall tbl c m, tm_encode tbl c = TmMsg m -> tm_accepted_facts tbl c.
+Proof.
+  intros tbl c m H. destruct c as [meta stype data size|sig sid data count|sig en|sig ts y atype group stype data size|sig sid utc|id|];
+    cbn [tm_encode tm_accepted_facts] in *; auto.
+  - destruct (N.ltb_spec 255 stype); [discriminate|lia].
+  - destruct (JLS_SIGNAL_COUNT <=? sig); [discriminate|]. destruct (tbl sig =? 0); [discriminate|].
+    change (4294967295 - TM_HDR) with 4294967255 in H.
+    destruct (N.ltb_spec 4294967255 ((count * tbl sig + 7) / 8)); [discriminate|assumption].
+  - destruct (N.ltb_spec 255 stype); [discriminate|]. destruct (N.ltb_spec 255 atype); [discriminate|]. lia.
+Qed.
+
 Lemma tm_encode_shape : forall tbl c m, tm_call_ok tbl c -> tm_encode tbl c = TmMsg m ->
   m = tm_hdr_of c ++ tm_payload_of tbl c /\ TM_HDR + len (tm_payload_of tbl c) < 4294967296 /\
   len (tm_payload_of tbl c) = tm_psize tbl c /\ tm_wcall_inb tbl (tm_norm tbl c) = true.
 Proof.
   intros tbl c m Hok H. destruct c as [meta stype data size|sig sid data count|sig en|sig ts y atype group stype data size|sig sid utc|id|];
     cbn [tm_encode tm_hdr_of tm_payload_of tm_psize tm_norm tm_wcall_inb tm_call_ok] in *.
-  - destruct Hok as (_ & _ & _ & Hb).
+  - destruct Hok as (_ & _ & Hb). destruct (255 <? stype); [discriminate|].
     destruct (tm_data_payload stype data size) as [rc| |p] eqn:Ep; try discriminate.
     destruct (tm_data_payload_norm _ _ _ _ Hb Ep) as (-> & Hin). apply tm_send_inv in H. destruct H as (-> & Hs). auto.
-  - destruct Hok as (_ & _ & _ & Hn).
+  - pose proof (tm_accept_facts tbl (TmFsr sig sid data count) m H) as Hn. cbn [tm_accepted_facts] in Hn.
     destruct (JLS_SIGNAL_COUNT <=? sig); [discriminate|]. destruct (tbl sig =? 0); [discriminate|].
-    unfold tm_fsr_len in H. rewrite N.mod_small in H by exact Hn.
+    destruct (4294967295 - TM_HDR <? (count * tbl sig + 7) / 8); [discriminate|].
+    unfold tm_fsr_len in H. rewrite N.mod_small in H by lia.
     set (n := (count * tbl sig + 7) / 8) in *.
     destruct data as [|b]; cbn [tm_bytes].
     + destruct (N.eqb_spec n 0) as [E|]; [|discriminate]. apply tm_send_inv in H. destruct H as (-> & Hs).
@@ -220,7 +240,7 @@ Proof.
       assert (E : len (firstn (N.to_nat n) b) = n) by (unfold len in *; rewrite firstn_length; lia).
       split; [reflexivity|]. split; [exact Hs|]. split; [exact E|]. rewrite E. apply N.leb_refl.
   - apply tm_send_inv in H. destruct H as (-> & Hs). auto.
-  - destruct Hok as (_ & _ & _ & _ & _ & _ & _ & Hb).
+  - destruct Hok as (_ & _ & _ & _ & _ & Hb). destruct ((255 <? stype) || (255 <? atype)); [discriminate|].
     destruct (tm_data_payload stype data size) as [rc| |p] eqn:Ep; try discriminate.
     destruct (tm_data_payload_norm _ _ _ _ Hb Ep) as (-> & Hin). apply tm_send_inv in H. destruct H as (-> & Hs). auto.
   - apply tm_send_inv in H. destruct H as (-> & Hs). auto.
@@ -229,15 +249,15 @@ Proof.
 Qed.
 
 (* ------------------------------------------------------------------ round trip *)
-Lemma tm_dh_norm : forall tbl c, tm_call_ok tbl c ->
+Lemma tm_dh_norm : forall tbl c, tm_call_ok tbl c -> tm_accepted_facts tbl c ->
   tm_dh (tm_hdr_of c) (tm_payload_of tbl c) (len (tm_payload_of tbl c)) = tm_norm tbl c.
 Proof.
-  intros tbl c Hok. destruct c as [meta stype data size|sig sid data count|sig en|sig ts y atype group stype data size|sig sid utc|id|];
-    cbn [tm_hdr_of tm_payload_of tm_norm tm_call_ok] in *.
-  - destruct Hok as (H1 & H2 & _). rewrite tm_dh_user, !N.mod_small by assumption. reflexivity.
-  - destruct Hok as (H1 & H2 & H3 & _). rewrite tm_dh_fsr, tm_i64_rt, !N.mod_small by assumption. reflexivity.
+  intros tbl c Hok Hacc. destruct c as [meta stype data size|sig sid data count|sig en|sig ts y atype group stype data size|sig sid utc|id|];
+    cbn [tm_hdr_of tm_payload_of tm_norm tm_call_ok tm_accepted_facts] in *.
+  - destruct Hok as (H1 & _). rewrite tm_dh_user, !N.mod_small by assumption. reflexivity.
+  - destruct Hok as (H1 & H2 & H3). rewrite tm_dh_fsr, tm_i64_rt, !N.mod_small by assumption. reflexivity.
   - destruct Hok as (H1 & H2). rewrite tm_dh_omit, !N.mod_small by assumption. reflexivity.
-  - destruct Hok as (H1 & H2 & H3 & H4 & H5 & H6 & _). rewrite tm_dh_ann, tm_i64_rt, !N.mod_small by assumption. reflexivity.
+  - destruct Hok as (H1 & H2 & H3 & H5 & _). destruct Hacc as (H6 & H4). rewrite tm_dh_ann, tm_i64_rt, !N.mod_small by assumption. reflexivity.
   - destruct Hok as (H1 & H2 & H3). rewrite tm_dh_utc, !tm_i64_rt, !N.mod_small by assumption. reflexivity.
   - rewrite tm_dh_flush, N.mod_small by assumption. reflexivity.
   - apply tm_dh_close.
@@ -247,7 +267,7 @@ Lemma tm_roundtrip : forall tbl c m, tm_call_ok tbl c -> tm_encode tbl c = TmMsg
   tm_decode m = Some (tm_norm tbl c).
 Proof.
   intros tbl c m Hok H. destruct (tm_encode_shape _ _ _ Hok H) as (-> & _).
-  rewrite tm_decode_app by apply tm_hdr_of_len. rewrite tm_dh_norm by exact Hok. reflexivity.
+  rewrite tm_decode_app by apply tm_hdr_of_len. rewrite (tm_dh_norm _ _ Hok (tm_accept_facts _ _ _ H)). reflexivity.
 Qed.
 
 Lemma tm_length : forall tbl c m, tm_call_ok tbl c -> tm_encode tbl c = TmMsg m ->
@@ -295,22 +315,33 @@ Proof.
     injection Hn; intros; congruence.
 Qed.
 
-(* ------------------------------------------------------------------ the two defects of the format (witnesses) *)
-Lemma tm_trunc_witness :
-  exists m w, tm_encode tm_trunc_tbl tm_trunc_call = TmMsg m /\ len m = 40 /\ tm_decode m = Some w /\
-    w = TmWFsr 1 0 [] 536870912 /\ tm_wcall_inb tm_trunc_tbl w = false.
+(* ------------------------------------------------------------------ the two former defects of the format: now rejected *)
+(* the witnesses of K-C06-fsr-len-trunc / K-C06-enum-trunc *)
+Lemma tm_trunc_rejected : tm_call_ok tm_trunc_tbl tm_trunc_call /\
+  tm_encode tm_trunc_tbl tm_trunc_call = TmRej JLS_ERROR_PARAMETER_INVALID.
+Proof. split; [cbn; unfold tm_i64_ok; repeat split; lia|vm_compute; reflexivity]. Qed.
+Lemma tm_enum_rejected : tm_call_ok tm_ex_tbl tm_enum_call /\
+  tm_encode tm_ex_tbl tm_enum_call = TmRej JLS_ERROR_PARAMETER_INVALID.
+Proof. split; [cbn; unfold tm_i64_ok; repeat split; lia|vm_compute; reflexivity]. Qed.
+
+(* the classes: every call with an enum argument above 255, and every FSR call on a defined signal whose payload and
+   header do not fit a uint32 message size, returns JLS_ERROR_PARAMETER_INVALID without queueing anything *)
+Lemma tm_out_of_range_rejected : forall tbl,
+  (forall meta stype data size, 255 < stype -> tm_encode tbl (TmUser meta stype data size) = TmRej JLS_ERROR_PARAMETER_INVALID) /\
+  (forall sig ts y atype group stype data size, 255 < stype \/ 255 < atype ->
+     tm_encode tbl (TmAnn sig ts y atype group stype data size) = TmRej JLS_ERROR_PARAMETER_INVALID) /\
+  (forall sig sid data count, sig < JLS_SIGNAL_COUNT -> tbl sig <> 0 ->
+     4294967295 - SIZEOF_msg_header < (count * tbl sig + 7) / 8 ->
+     tm_encode tbl (TmFsr sig sid data count) = TmRej JLS_ERROR_PARAMETER_INVALID).
 Proof.
-  exists (tm_hdr_fsr 1 0 536870912), (TmWFsr 1 0 [] 536870912).
-  split; [vm_compute; reflexivity|]. split; [vm_compute; reflexivity|]. split; [vm_compute; reflexivity|].
-  split; [reflexivity|vm_compute; reflexivity].
-Qed.
-Lemma tm_enum_witness :
-  exists m w, tm_encode tm_ex_tbl tm_enum_call = TmMsg m /\ tm_decode m = Some w /\
-    w = TmWAnn 1 0 0 1 0 2 [97; 98] 2 /\ tm_wcall_inb tm_ex_tbl w = false /\ w <> tm_norm tm_ex_tbl tm_enum_call.
-Proof.
-  exists (tm_hdr_ann 1 0 0 1 0 258 ++ [97; 98]), (TmWAnn 1 0 0 1 0 2 [97; 98] 2).
-  split; [vm_compute; reflexivity|]. split; [vm_compute; reflexivity|]. split; [reflexivity|].
-  split; [vm_compute; reflexivity|]. vm_compute. discriminate.
+  intros tbl. split; [|split].
+  - intros meta stype data size H. cbn [tm_encode]. destruct (N.ltb_spec 255 stype); [reflexivity|lia].
+  - intros sig ts y atype group stype data size H. cbn [tm_encode].
+    destruct (N.ltb_spec 255 stype); [reflexivity|]. destruct (N.ltb_spec 255 atype); [reflexivity|]. lia.
+  - intros sig sid data count Hs Ht Hn. cbn [tm_encode].
+    destruct (N.leb_spec JLS_SIGNAL_COUNT sig); [lia|]. destruct (N.eqb_spec (tbl sig) 0); [contradiction|].
+    change TM_HDR with SIZEOF_msg_header.
+    destruct (N.ltb_spec (4294967295 - SIZEOF_msg_header) ((count * tbl sig + 7) / 8)); [reflexivity|lia].
 Qed.
 
 (* ------------------------------------------------------------------ examples *)
@@ -342,11 +373,14 @@ Qed.
 Lemma tm_kind_byte : forall tbl c k x body, tm_kind c = Some k -> tm_encode tbl c = TmMsg (x :: body) -> x = tw_mcode k.
 Proof.
   intros tbl c k x body Hk H. destruct c; cbn [tm_kind] in Hk; try discriminate; injection Hk as <-; cbn [tm_encode tw_mcode] in *.
-  - destruct (tm_data_payload stype data data_size); try discriminate. exact (tm_send_head _ _ _ _ _ H).
+  - destruct (255 <? stype); [discriminate|].
+    destruct (tm_data_payload stype data data_size); try discriminate. exact (tm_send_head _ _ _ _ _ H).
   - destruct (JLS_SIGNAL_COUNT <=? sig); [discriminate|]. destruct (tbl sig =? 0); [discriminate|].
+    destruct (_ <? _); [discriminate|].
     destruct data; [destruct (_ =? 0)|destruct (_ <=? _)]; try discriminate; exact (tm_send_head _ _ _ _ _ H).
   - exact (tm_send_head _ _ _ _ _ H).
-  - destruct (tm_data_payload stype data data_size); try discriminate. exact (tm_send_head _ _ _ _ _ H).
+  - destruct (_ || _); [discriminate|].
+    destruct (tm_data_payload stype data data_size); try discriminate. exact (tm_send_head _ _ _ _ _ H).
   - exact (tm_send_head _ _ _ _ _ H).
 Qed.
 
@@ -668,7 +702,7 @@ Proof.
     cbn [tm_norm tm_wop tm_wop_direct] in H1, H2; try discriminate; injection H1 as <-; injection H2 as <-; try reflexivity.
   - (* user data *)
     cbn [WriterModel.wm_step_rc]. unfold tm_norm_data. destruct (tm_is_str stype) eqn:Es; [|reflexivity].
-    cbn [tm_encode] in He. destruct (tm_data_payload stype data size) as [rc| |p] eqn:Ep; try discriminate.
+    cbn [tm_encode] in He. destruct (255 <? stype); [discriminate|]. destruct (tm_data_payload stype data size) as [rc| |p] eqn:Ep; try discriminate.
     destruct (tm_payload_str _ _ _ _ Es Ep) as (s & Hc). rewrite Hc. destruct (tm_cstr_wm _ _ Hc) as (A & B).
     unfold WriterModel.wm_api_user_data. cbn [ud_stype ud_meta ud_data].
     destruct (tm_is_str_cases _ Es) as [-> | ->]; cbn [N.eqb Pos.eqb]; rewrite A, B; reflexivity.
@@ -676,7 +710,7 @@ Proof.
     rewrite tm_unpack_prefix. reflexivity.
   - (* annotation *)
     cbn [WriterModel.wm_step_rc]. unfold tm_norm_data. destruct (tm_is_str stype) eqn:Es; [|reflexivity].
-    cbn [tm_encode] in He. destruct (tm_data_payload stype data size) as [rc| |p] eqn:Ep; try discriminate.
+    cbn [tm_encode] in He. destruct (_ || _); [discriminate|]. destruct (tm_data_payload stype data size) as [rc| |p] eqn:Ep; try discriminate.
     destruct (tm_payload_str _ _ _ _ Es Ep) as (s & Hc). rewrite Hc. destruct (tm_cstr_wm _ _ Hc) as (A & B).
     unfold WriterModel.wm_api_annotation. cbn [an_type an_stype an_ts an_group an_y].
     assert (Hp : forall a1 a2 a3 a4,
